@@ -1,6 +1,27 @@
 #include <igris/protocols/gstuff_v1/gstuff.h>
 #include <igris/util/crc.h>
 
+static char *gstuff_byte_v1(char c, char *outdata)
+{
+    switch (c)
+    {
+    case GSTUFF_START_V1:
+        *outdata++ = GSTUFF_STUB_V1;
+        *outdata++ = GSTUFF_STUB_START_V1;
+        break;
+
+    case GSTUFF_STUB_V1:
+        *outdata++ = GSTUFF_STUB_V1;
+        *outdata++ = GSTUFF_STUB_STUB_V1;
+        break;
+
+    default:
+        *outdata++ = c;
+    }
+
+    return outdata;
+}
+
 int gstuffing_v1(char *data, int size, char *outdata)
 {
     char *outstrt;
@@ -15,25 +36,11 @@ int gstuffing_v1(char *data, int size, char *outdata)
     {
         char c = *data++;
         igris_strmcrc8(&crc, c);
-
-        switch (c)
-        {
-        case GSTUFF_START_V1:
-            *outdata++ = GSTUFF_STUB_V1;
-            *outdata++ = GSTUFF_STUB_START_V1;
-            break;
-
-        case GSTUFF_STUB_V1:
-            *outdata++ = GSTUFF_STUB_V1;
-            *outdata++ = GSTUFF_STUB_STUB_V1;
-            break;
-
-        default:
-            *outdata++ = c;
-        }
+        outdata = gstuff_byte_v1(c, outdata);
     }
 
-    *outdata++ = crc;
+    // crc тоже может совпасть со служебным символом
+    outdata = gstuff_byte_v1((char)crc, outdata);
     *outdata++ = GSTUFF_START_V1;
 
     return (int)(outdata - outstrt);
